@@ -288,7 +288,7 @@ func (s SchemaComponent) Render() (string, error) {
 		RefIsObject    bool
 	}{
 		RefJSONMethods: s.refJSONMethods(),
-		RefIsObject:    s.Schema.Ref != nil && s.Schema.Kind() == SchemaKindObject,
+		RefIsObject:    s.refIsStructure(),
 
 		Schema: s.Schema,
 
@@ -322,6 +322,17 @@ func (s SchemaComponent) refJSONMethods() string {
 		return ""
 	}
 	return s.Schema.Ref.Name
+}
+
+// refIsStructure: the referenced component is (an alias of) an object with
+// properties, whose type also has the inner-body methods allOf embedding calls
+// (a oneOf component is of object kind too, but has no such methods).
+func (s SchemaComponent) refIsStructure() bool {
+	if s.Schema.Ref == nil {
+		return false
+	}
+	_, ok := s.Schema.Base().Type.(StructureType)
+	return ok
 }
 
 func (s SchemaComponent) hasJSONMethods(depth int) bool {
